@@ -49,6 +49,10 @@ type vconn struct {
 	faults  map[int]error
 	fired   map[int]bool
 	expired bool // a deadline has expired: every Read fails until SetReadDeadline moves it
+	// finalWithData: the Read that delivers the last octets returns the final
+	// error together with them (n > 0 and err != nil, which io.Reader allows
+	// and TLS connections do when the close_notify follows the data)
+	finalWithData bool
 	// onRead, if set, is called at the start of every Read that delivers octets,
 	// with the input position
 	onRead func(pos int)
@@ -120,6 +124,12 @@ func (c *vconn) Read(b []byte) (int, error) {
 	}
 	copy(b, c.in[c.pos:c.pos+n])
 	c.pos += n
+	if c.finalWithData && c.pos >= len(c.in) && c.script == nil && c.hold == nil {
+		if c.final == nil {
+			return n, io.EOF
+		}
+		return n, c.final
+	}
 	return n, nil
 }
 
